@@ -119,8 +119,12 @@ func fnExprJS(e *sx) string {
 		return "(function " + nm + "(" + strings.Join(fnNames(a[1]), ", ") + ") { " + fnBodyJS(a[2], a[3], a[4]) + " })"
 	case "ob":
 		var ps []string
-		for _, p := range a {
-			ps = append(ps, strconv.Quote(p.args[0].name)+": "+fnExprJS(p.args[1]))
+		for i, p := range a {
+			k := strconv.Quote(p.args[0].name)
+			if _, err := strconv.Atoi(p.args[0].name); err == nil && i%2 == 1 {
+				k = p.args[0].name // a numeric key is spelt 1 as well as "1"
+			}
+			ps = append(ps, k+": "+fnExprJS(p.args[1]))
 		}
 		return "({" + strings.Join(ps, ", ") + "})"
 	case "add":
